@@ -662,7 +662,7 @@ def bad_tbs(rec):
 def run(ctx, rec):
     attach(rec)
     rng = ctx.rng("c17")
-    n = 700 if ctx.quick else 2500
+    n = 700 if ctx.quick else 8000
     for k in range(n):
         one(rec, rng, k)
     for k in range(n // 4):
